@@ -33,7 +33,7 @@ CLAIMED = {
          "Trusted: go/ssa, gse semantics, z3, the reference transition model written in the harness, the invariant (assumed on the pre-state, asserted on the post-state by C05). Shapes: <= 2 MAC entries, <= 3 hosts (evidence.bounds).",
          "DESIGN.md §4 C04-C06", "inductive step by bounded symbolic execution from symbolic invariant states, SMT-decided transition specification"),
  "C05": ("Bounded model checking by induction: the table invariants (host indexed under its own IP, belongs to exactly the MAC entry that lists it and shares its MAC, entries unique per MAC, online host => online entry, index size = number of listed hosts, PrintTable self-check does not panic) are assumed on a symbolic pre-state and asserted after every step of the C04 harness family.",
-         "Trusted: as C04. Capture/Release/SetDHCPv4IPOffer and the concurrent quiescent points of C09 are not covered.",
+         "Trusted: as C04. Capture/Release/SetDHCPv4IPOffer only touch MAC-entry scalars and are not stepped here; the quiescent points of concurrent executions are asserted by the C09 thread-mode harnesses.",
          "DESIGN.md §4 C04-C06", "inductive step by bounded symbolic execution: invariant preservation as SMT obligations"),
  "C06": ("Bounded model checking by induction: after every Parse+Notify / purge step from a clean (no pending notification) invariant state the drained channel is checked: repeat traffic notifies nothing; first sight or return from offline yields exactly one online notification, preceded by exactly one offline notification per superseded online IPv4 sibling; ageing yields exactly one offline notification; contents equal the tracked state; nothing stays pending.",
          "Trusted: as C04. Name-change notifications, channel overflow and liveness (eventual delivery) are outside the claim.",
